@@ -9,8 +9,9 @@
    are compared with an independent restatement on the real Dispatcher (relational correspondence: optimal matchings are not
    unique). *)
 From Hive.Base Require Import Prelude.
-From Hive.Model Require Import Dispatch.
-From Hive.Proofs Require Import Assign.
+From Hive.Model Require Import Types KernelBase Dispatch.
+From Hive.Gen Require Import Kernels.
+From Hive.Proofs Require Import Assign Eligible.
 Local Open Scope Z_scope.
 
 Theorem C12_certificate_sound : forall c n m sigma u w, check_cert c n m sigma u w = true -> NoDup sigma ->
@@ -25,4 +26,15 @@ Proof. exact find_assignment_valid. Qed.
 Example C12_certificate_example :
   check_cert (fun i j => nth j (nth i [[4; 1; 3; 9]; [2; 0; 5; 9]; [3; 2; 2; 9]] []) 0) 3 4 [1%nat; 0%nat; 2%nat] [3; 2; 2] [0; -2; 0; 0] = true.
 Proof. vm_compute. reflexivity. Qed.
+(* eligibility: what the dispatcher hands to the solver (the two filter closures regenerated from dispatcher.py) *)
+Theorem C12_offered_vehicles_are_eligible : forall env states mr br fleet v, dispatcher_valid_vehicle env states mr br fleet v = true ->
+  In (state_kind (v_state v)) states /\ driver_available (v_driver v) = true /\
+  match fleet with Some f => grant_access_to_membership_id (v_mem v) f = true | None => True end /\
+  exists m, e_mech env (v_mech v) = Some m /\ (mr < mech_range m v)%Q /\ (forall b c, v_state v = ChargingBase b c -> (br <= mech_range m v)%Q).
+Proof. exact valid_vehicle_spec. Qed.
+Theorem C12_offered_requests_are_unassigned : forall fleet r, dispatcher_valid_request fleet r = true <->
+  r_disp r = None /\ match fleet with Some f => grant_access_to_membership_id (r_mem r) f = true | None => True end.
+Proof. exact valid_request_spec. Qed.
+Print Assumptions C12_offered_vehicles_are_eligible. Print Assumptions C12_offered_requests_are_unassigned.
+
 Print Assumptions C12_certificate_sound. Print Assumptions C12_glue_valid. Print Assumptions C12_certificate_example.
